@@ -92,6 +92,10 @@ class Ctx:
         """unit normal (nx, ny) with nx^2+ny^2 = 1 : parametrised on the Cartesian grid by
         the two families (1,0) and (0,1); a general symbolic unit vector is modelled with
         atoms and the relation is applied by the caller."""
+        # proofs hold for every vector (nx, ny); witness points of refutations use the unit normals
+        # of a Cartesian grid, which is what the statements quantify over
+        self.alg.point_hooks["nx"] = lambda k: float((1, 0, -1, 0)[k % 4])
+        self.alg.point_hooks["ny"] = lambda k: float((0, 1, 0, -1)[k % 4])
         return Vec(self.alg.sym("nx"), self.alg.sym("ny"))
 
     def method(self, name):
